@@ -196,7 +196,7 @@ Proof. intros H2. unfold do_win. destruct (_ >? _); [|exact H2]. eapply Inv2_cor
 Lemma do_cwin_Inv2 l s : Inv2 s -> Inv2 (fst (do_cwin l s)).
 Proof. intros H2. unfold do_cwin. destruct (_ >? _); [|exact H2]. eapply Inv2_core; [|exact H2]. reflexivity. Qed.
 Lemma do_rel_Inv2 s : Inv2 s -> Inv2 (fst (do_rel s)).
-Proof. intros H2. eapply Inv2_core; [|exact H2]. reflexivity. Qed.
+Proof. intros H2. unfold do_rel. destruct (isSome _); [exact H2|]. eapply Inv2_core; [|exact H2]. reflexivity. Qed.
 Lemma do_enable_Inv2 s : Inv2 s -> Inv2 (fst (do_enable s)).
 Proof. intros H2. eapply Inv2_core; [|exact H2]. reflexivity. Qed.
 Lemma do_shutdown_Inv2 s : Inv2 s -> Inv2 (fst (do_shutdown s)).
@@ -331,7 +331,7 @@ Proof.
     destruct F as (fin & F1 & F2 & F3 & F4 & F5 & F6 & F7 & F8 & F9 & F10 & F11 & F12 & F13 & F14 & F15 & F16 & F17 & F18 & F19 & F20 & F21 & F22).
     set (s' := fst (finish_new (sendWindowSize s) (ro s) more s1 f0)) in *.
     apply new_frame_Inv2 with (s := s) (f := mkF (f_off f0) (f_data f0) fin); cbn [f_off f_data f_fin]; auto; try congruence.
-    intros Hfin. destruct (F15 Hfin) as (B1 & B2 & B3 & B4). repeat split; congruence.
+    intros Hfin. destruct (F15 Hfin) as (B1 & B2 & B3 & B4 & B5). repeat split; congruence.
 Qed.
 
 (** ** reset is sticky; [late] implies reset *)
@@ -393,7 +393,7 @@ Proof.
   - unfold do_rlost. destruct (nth_error _ _); [|exact H]. destruct (negb _); exact H.
   - unfold do_win. destruct (_ >? _); exact H.
   - unfold do_cwin. destruct (_ >? _); exact H.
-  - exact H.
+  - unfold do_rel. destruct (isSome _); exact H.
   - exact H.
   - unfold do_shutdown. destruct (_ && _); exact H.
 Qed.
@@ -407,7 +407,6 @@ Qed.
 Definition sets_late (s : state) (o : op) : bool :=
   negb (panicked s) &&
   match o with
-  | ORel => isSome (resetErr s)
   | OEnable => isSome (resetErr s) && negb (supportsRSA s)
   | _ => false
   end.
@@ -445,7 +444,7 @@ Proof.
   - unfold do_rlost. destruct (nth_error _ _); [|reflexivity]. destruct (negb _); reflexivity.
   - unfold do_win. destruct (_ >? _); reflexivity.
   - unfold do_cwin. destruct (_ >? _); reflexivity.
-  - reflexivity.
+  - unfold do_rel. destruct (isSome _); reflexivity.
   - reflexivity.
   - unfold do_shutdown. destruct (_ && _); reflexivity.
 Qed.
